@@ -12,10 +12,10 @@ import (
 func init() { register("C18", checkC18) }
 
 type leaderRoles struct {
-	isLeader, syncRead *types.Func
+	isLeader, syncRead                 *types.Func
 	writeSinks, streamSinks, readSinks map[*types.Func]string
-	shimImpl map[*ssa.Function]bool
-	guardFns map[*ssa.Function]bool
+	shimImpl                           map[*ssa.Function]bool
+	guardFns                           map[*ssa.Function]bool
 }
 
 func (p *Prog) leaderRoles() *leaderRoles {
